@@ -19,7 +19,7 @@ from typing import Dict, List, Optional, Tuple
 
 from ..cfg import cfg_of
 from ..dataflow import Resolver as ExprResolver
-from ..dataflow import expr_leaves, flow_of
+from ..dataflow import expr_leaves, flow_of, select_path
 from ..engine import Context, Reporter
 from ..model import AnalysisError, FuncInfo, dotted, norm_text, walk_no_nested
 from ..util import call_arg, calls_in, calls_in_node, const_value, split_cond, unparse
@@ -514,9 +514,51 @@ def rule_c(ctx: Context, R: Reporter, pred: FuncInfo):
         ups = set()
         if isinstance(b.right, ast.Name):
             special_name = b.right.id
-            for c in calls_in(pred.node):
-                if isinstance(c.func, ast.Attribute) and c.func.attr in ("update", "union", "extend") and isinstance(c.func.value, ast.Name) and c.func.value.id == special_name and c.args and isinstance(c.args[0], ast.Name):
-                    ups.add(c.args[0].id)
+            def _src(e, at, depth=0):
+                """the designated-list parameter a set operand stands for: the name itself, or a set/frozenset/list/tuple
+                of it, possibly through a local that is None exactly when the list is absent"""
+                while isinstance(e, ast.Call) and len(e.args) == 1 and not e.keywords and (dotted(e.func) in ("set", "frozenset", "list", "tuple", "sorted") or (ctx.res.external_name(pred, e) or "") in ("numpy.asarray", "numpy.array", "numpy.unique")):
+                    e = e.args[0]
+                if not isinstance(e, ast.Name):
+                    return None
+                if e.id in (pper, pref):
+                    return e.id
+                if depth > 3 or at is None:
+                    return None
+                outs = set()
+                for d in flow.reaching(at, e.id):
+                    v = select_path(d.value, d.path) if (d.path and d.value is not None) else d.value
+                    if v is None or d.node is None:
+                        return None
+                    if isinstance(v, ast.Constant) and v.value is None:
+                        continue
+                    if isinstance(v, ast.IfExp):
+                        arms = [a for a in (v.body, v.orelse) if not (isinstance(a, ast.Constant) and a.value is None)]
+                        if len(arms) != 1:
+                            return None
+                        v = arms[0]
+                    outs.add(_src(v, d.node, depth + 1))
+                return outs.pop() if len(outs) == 1 else None
+
+            for nd_ in cfg.stmt_nodes():
+                if nd_.kind != "stmt":
+                    continue
+                for c in [x for x in ast.walk(nd_.stmt) if isinstance(x, ast.Call)]:
+                    if isinstance(c.func, ast.Attribute) and c.func.attr in ("update", "union", "extend") and isinstance(c.func.value, ast.Name) and c.func.value.id == special_name and c.args:
+                        for a_ in c.args:
+                            s_ = _src(a_, nd_)
+                            if s_:
+                                ups.add(s_)
+                st_ = nd_.stmt
+                if isinstance(st_, ast.AugAssign) and isinstance(st_.op, ast.BitOr) and isinstance(st_.target, ast.Name) and st_.target.id == special_name:
+                    s_ = _src(st_.value, nd_)
+                    if s_:
+                        ups.add(s_)
+                if isinstance(st_, ast.Assign) and isinstance(st_.targets[0], ast.Name) and st_.targets[0].id == special_name and isinstance(st_.value, ast.BinOp) and isinstance(st_.value.op, ast.BitOr):
+                    for a_ in (st_.value.left, st_.value.right):
+                        s_ = _src(a_, nd_)
+                        if s_:
+                            ups.add(s_)
         else:
             ups = {x.id for x in ast.walk(b.right) if isinstance(x, ast.Name)} & {pper, pref}
         both = {pper, pref} <= ups
